@@ -90,6 +90,11 @@ func (f *Defun) Call(s *slip.Scope, args slip.List, depth int) (result slip.Obje
 		}
 	}
 	pkg.DefLambda(low, lc, fc, slip.FunctionSymbol)
+	if shared := pkg.Lambda(low); shared != nil {
+		// Callers compiled from now on get the lambda that is registered, the
+		// same one earlier callers hold and a later redefinition updates.
+		lc = shared
+	}
 	if 0 < len(s.Parents()) {
 		lc.Closure = s
 	}
